@@ -276,8 +276,12 @@ fn int_json<N: Nt + Valid + DeserializeOwned + Serialize>(v: &Value) -> CheckRes
     let r = check_value::<N>(v)?;
     let num = json_int(v).filter(|_| v.is_number() && !v.is_f64());
     let in_range = num.map_or(false, |x| x >= 0 && (x as u128) <= N::MAXV);
-    if let Some(x) = r {
-        ensure!(in_range && Some(x.getw() as i128) == num, format!("{}/wrong_value_from_json", N::NAME), "{} deserialized to {:?}", v, x);
+    match (num, r) {
+        // an integer input: accepted exactly if in range, and then with that value
+        (Some(n), Some(x)) => ensure!(in_range && x.getw() as i128 == n, format!("{}/wrong_value_from_json", N::NAME), "{} deserialized to {:?}", v, x),
+        (Some(_), None) => ensure!(!in_range, format!("{}/natural_representation_rejected", N::NAME), "{} was rejected", v),
+        // any other input (float, string, ...): the statement only demands a valid result (checked by check_value)
+        _ => {}
     }
     Ok(v.is_number() && !in_range)
 }
@@ -373,7 +377,10 @@ fn raw_case(fields: &[Value]) -> CheckResult {
     if let Some(m) = r {
         let b = m.to_bytes();
         let want = [json!(b.0), json!(b.1.get()), json!(b.2.get())];
-        ensure!(fields == want, "RawShortMessage/wrong_value", "{} deserialized to {:?}", v, m);
+        // (only integer inputs have a "natural" value to compare with)
+        if fields.iter().all(|f| f.is_i64() || f.is_u64()) {
+            ensure!(fields == want, "RawShortMessage/wrong_value", "{} deserialized to {:?}", v, m);
+        }
     }
     let nums: Vec<Option<i128>> = fields.iter().map(json_int).collect();
     let shape_ok = fields.len() == 3 && nums.iter().all(|n| n.is_some());
